@@ -490,6 +490,10 @@ func describeValue(v ssa.Value) string {
 }
 
 func init() {
+	extend("C06", "(P06-lower-index) an element is addressed as x[v - c] only where v is known to be at least c (a test on the way, a non-empty slice, a counter that starts high enough).", ruleP06LowerIndex)
+	extend("C09", "Also (P01-skips): nothing but the one separator is skipped in front of an entry summary — a further SkipWhile there eats blanks that belong to the summary, and print no longer reproduces it.", ruleP01Skips)
+	extend("C01", "(P01-skips) every SkipWhile of the parser skips the set of its place: spaces and tabs in the headline, spaces only around the dash of a range.", ruleP01Skips)
+	extend("C06", "Also (P15-weekday): Weekday() is Go's weekday renumbered — a value outside 1…7 makes the day name lookup of `klog report` panic.", ruleP15Weekday)
 	extend("C02", "(P02-open-range-derived) a record's open range is found by searching its entry list each time, so that it is still found after a filter replaced the list.", ruleP02OpenRangeDerived)
 	extend("C11", "(P11-apply-always) a reconciler consults the reformat directive on every path that goes on to write the generated value.", ruleP11ApplyAlways)
 	extend("C02", "Also (P17-follow-fresh): every redraw of today --follow closes the open range at the then-current time.", ruleP17FollowFresh)
@@ -497,7 +501,7 @@ func init() {
 	extend("C03", "Also (P04-pause-position): otherwise the periodic step of `klog pause` rewrites an older pause line that the command was not started for.", ruleP04PausePosition)
 	extend("C10", "(P10-origin) the origin of an error is the path of the very file whose contents the parse call that produced it was given.", ruleP10Origin)
 	extend("C15", "(P15-pattern-dispatch) each of the four pattern parsers is asked for every text the ones before it refused; none is reached only under a condition on the text itself.", ruleP15PatternDispatch)
-	extend("C13", "Also (P12-now-applied, P15-pattern-dispatch): every evaluating command filters first and applies --now to what the filter selected — a range closed beforehand is no longer an open range for --entry-type; --period reaches the pattern parsers unconditionally.", ruleP12NowApplied, ruleP15PatternDispatch)
+	extend("C13", "Also (P12-now-applied, P15-pattern-dispatch): every evaluating command filters first and applies --now to what the filter selected — a range closed beforehand is no longer an open range for --entry-type; --period reaches the pattern parsers unconditionally.", ruleP12NowApplied, ruleP12NowAll, ruleP15PatternDispatch)
 	extend("C14", "Also (P12-now-applied): the per-tag totals are computed after --now was applied.", ruleP12NowApplied)
 	extend("C20", "Also (P02-close): under --now every open range of today's and yesterday's records is closed at the current time, each with the shift of its own record.", ruleP02Close)
 	extend("C04", "Also (P17-atdate-table): --yesterday / --tomorrow are calendar days relative to today, not 24-hour offsets of the instant.", ruleP17AtDateTable)
@@ -2500,55 +2504,353 @@ func ruleP02OpenRangeDerived(p *Prog, r *Report) {
 	if !r.anchorFn(rule, or, "(*record).OpenRange") || !r.anchorFn(rule, eor, "(*record).EndOpenRange") {
 		return
 	}
-	isEntriesOfRecv := func(f *ssa.Function, coll ssa.Value) bool {
-		base, fld := fieldLoad(coll)
-		return fld == "entries" && base != nil && strip(base) == ssa.Value(f.Params[0])
+	// what the two methods look at, through whatever private helpers they use: of the record,
+	// nothing but its entry list
+	for _, m := range []*ssa.Function{or, eor} {
+		name := fnBase(m)
+		bad := ""
+		nEntries := 0
+		eachVInstr(m, func(in ssa.Instruction) {
+			fa, ok := in.(*ssa.FieldAddr)
+			if !ok || typeNameOf(derefType(fa.X.Type())) != "record" {
+				return
+			}
+			if fieldName(fa) == "entries" {
+				nEntries++
+				return
+			}
+			bad = fieldName(fa) + " (" + p.instrPos(fa) + ")"
+		})
+		r.check(bad == "", rule, name+":reads", p.pos(m.Pos()), "of the record, "+name+" looks at the entry list only", name+"() relies on the record's field "+bad+" besides the entry list: whatever is remembered there about the entries is not kept up to date when the list is replaced as a whole (SetEntries, used by the tag and entry-type filters), and the open range of a filtered record is no longer found — --now leaves it open")
+		if nEntries == 0 {
+			r.undecided(rule, name+":entries", p.pos(m.Pos()), "%s does not read the record's entry list", name)
+		}
 	}
-	// OpenRange: a non-nil answer is the type-asserted value of an element found by ranging over
-	// the receiver's entries
-	for i, ret := range returnsOf(or) {
-		v := retResult(ret, 0)
-		if isNilConst(v) {
+}
+
+// P01-skips — what may be skipped where: between the parts of the headline any run of blanks
+// (space or tab); around the dash of a range spaces only — "8:00 -<TAB>9:00" is not a range of
+// the specification. Every SkipWhile of the parser is held to the set of its place.
+func ruleP01Skips(p *Prog, r *Report) {
+	const rule = "P01-skips"
+	_, fam := parseFamily(p)
+	var headlineFn *ssa.Function
+	for _, g := range fam {
+		eachInstr(g, func(in ssa.Instruction) {
+			if c, ok := in.(ssa.CallInstruction); ok {
+				if callee := staticCallee(c); callee != nil && fnBase(callee) == "ErrorUnrecognisedTextInHeadline" {
+					headlineFn = g
+				}
+			}
+		})
+	}
+	if headlineFn == nil {
+		r.undecided(rule, "anchor", "-", "the function that parses the headline was not found")
+		return
+	}
+	inHeadline := map[*ssa.Function]bool{headlineFn: true}
+	for _, h := range helpersCalledFrom([]*ssa.Function{headlineFn}) {
+		inHeadline[h] = true
+	}
+	nHead, nEntry := 0, 0
+	for _, g := range fam {
+		eachInstr(g, func(in ssa.Instruction) {
+			c, ok := in.(ssa.CallInstruction)
+			if !ok {
+				return
+			}
+			nm, _, args, _ := methodCallOf(c)
+			if nm != "SkipWhile" || len(args) != 1 {
+				return
+			}
+			set, okSet := p.runePredicateSet(args[0])
+			if !okSet {
+				set = "?"
+			}
+			if inHeadline[g] {
+				nHead++
+				r.check(set == "{' ','\\t'}", rule, fmt.Sprintf("headline#%d", nHead), p.instrPos(c), "between the parts of the headline runs of spaces and tabs are skipped", "in the headline "+set+" is skipped, not spaces and tabs")
+				return
+			}
+			nEntry++
+			r.check(set == "{' '}", rule, fmt.Sprintf("entry#%d", nEntry), p.instrPos(c), "around the dash of a range only spaces are skipped", "in an entry value "+set+" is skipped around the dash instead of spaces only: a range written with a tab beside the dash (8:00 -<TAB>9:00), which the specification does not allow, is accepted")
+		})
+	}
+	if nHead < 3 || nEntry < 2 {
+		r.undecided(rule, "floor", "-", "found %d headline and %d entry skips, expected at least 3 and 2", nHead, nEntry)
+	}
+}
+
+// P06-lower-index — an element is addressed as x[v − c] (c ≥ 1, v not a constant) only where v is
+// known to be at least c: a test of v against a constant on the way (v == 0 → skip, v > 0,
+// v >= c …), v being a length that is known to be positive, or v being a loop counter that
+// starts at c or above and only grows. A "look at the neighbour before" without such a test
+// indexes −1 for the first element — the commands panic on whatever input gets there.
+func ruleP06LowerIndex(p *Prog, r *Report) {
+	const rule = "P06-lower-index"
+	n := 0
+	for _, f := range p.srcFns {
+		if len(f.Blocks) == 0 || !p.inMod(f) {
 			continue
 		}
-		ok := false
-		if ex, isEx := strip(v).(*ssa.Extract); isEx && ex.Index == 0 {
-			if ta, isTA := ex.Tuple.(*ssa.TypeAssert); isTA {
-				if base, fld := fieldLoad(ta.X); fld == "value" && base != nil {
-					if coll := rangeElemOf(base); coll != nil && isEntriesOfRecv(or, coll) {
-						ok = true
+		idx := 0
+		eachInstr(f, func(in ssa.Instruction) {
+			var index ssa.Value
+			switch x := in.(type) {
+			case *ssa.IndexAddr:
+				index = x.Index
+			case *ssa.Index:
+				index = x.Index
+			default:
+				return
+			}
+			pl := polyOf(index)
+			if len(pl.Terms) != 1 {
+				return
+			}
+			var v ssa.Value
+			for k, c := range pl.Terms {
+				if c != 1 {
+					return
+				}
+				v = pl.leafV[k]
+			}
+			if v == nil {
+				return
+			}
+			need := -pl.C // v must be >= need
+			// the hidden counter of a range loop runs one behind the index the source sees
+			if ph, isPhi := strip(v).(*ssa.Phi); isPhi {
+				for _, ref := range *ph.Referrers() {
+					if bo, isB := ref.(*ssa.BinOp); isB && isRangeIndex(bo) && bo.X == ssa.Value(ph) {
+						v, need = bo, need+1
 					}
 				}
 			}
+			if need <= 0 {
+				return
+			}
+			pl.C = -need
+			n++
+			idx++
+			key := fmt.Sprintf("%s#%d", fnName(f), idx)
+			ok, how := lowerBoundKnown(in.Block(), v, need, 0)
+			if !ok && pkgPathOfFn(f) == modPath+"/klog/parser/engine" && isPreviousByteOfChunkBoundary(in) {
+				// reasoned exception, keyed by the construct (confirmed by reading; the comparison was
+				// added with repair D11, and refactorings move it into helpers of various names):
+				// the byte before the boundary is read only under `nextPointer < len(txt)`, and
+				// nextPointer = pointer + ceil(len(txt)/n) with n >= 1 and pointer >= 0 is at least 1
+				// whenever len(txt) >= 1 — which that very condition implies
+				r.assume(rule, key, p.instrPos(in), "index %s: the boundary is at least one batch size (>= 1 byte of a non-empty text) behind the start", pl.String())
+				return
+			}
+			r.check(ok, rule, key, p.instrPos(in), fmt.Sprintf("index %s: %s", pl.String(), how), fmt.Sprintf("an element is addressed at %s although nothing on the way establishes that the index is not negative (%s): for the first element this is index -1, and the command panics", pl.String(), how))
+		})
+	}
+	if n == 0 {
+		r.ok(rule, "none", "-", "no x[v - c] index expressions in the module")
+	}
+}
+
+// lowerBoundKnown: reaching block b implies v >= need.
+func lowerBoundKnown(b *ssa.BasicBlock, v ssa.Value, need int64, depth int) (bool, string) {
+	if depth > 3 {
+		return false, "too deep"
+	}
+	sv := strip(v)
+	// tests on the way
+	for _, g := range guardsOf(b) {
+		bo, ok := normCmp(g.Cond)
+		if !ok {
+			continue
 		}
-		if mi, isMI := strip(v).(*ssa.MakeInterface); isMI && !ok {
-			if ex, isEx := strip(mi.X).(*ssa.Extract); isEx && ex.Index == 0 {
-				if ta, isTA := ex.Tuple.(*ssa.TypeAssert); isTA {
-					if base, fld := fieldLoad(ta.X); fld == "value" && base != nil {
-						if coll := rangeElemOf(base); coll != nil && isEntriesOfRecv(or, coll) {
-							ok = true
+		op, x, y := bo.Op, bo.X, bo.Y
+		if _, isK := constInt(x); isK {
+			x, y = y, x
+			switch op {
+			case token.LSS:
+				op = token.GTR
+			case token.LEQ:
+				op = token.GEQ
+			case token.GTR:
+				op = token.LSS
+			case token.GEQ:
+				op = token.LEQ
+			}
+		}
+		k, isK := constInt(y)
+		if !isK {
+			continue
+		}
+		if !(strip(x) == sv || sameValue(x, v)) {
+			// a test of v plus or minus a constant (`last := len(x) - 1; if last >= 0`)
+			px, pv := polyOf(x), polyOf(v)
+			if len(px.Terms) != 1 || len(pv.Terms) != 1 {
+				continue
+			}
+			same := false
+			for kx, cx := range px.Terms {
+				for kv, cv := range pv.Terms {
+					if kx == kv && cx == 1 && cv == 1 {
+						same = true
+					}
+				}
+			}
+			if !same {
+				continue
+			}
+			k = k - px.C + pv.C // x = v' + px.C, v = v' + pv.C  =>  (x op k) <=> (v op k - px.C + pv.C)
+		}
+		if !g.Pol {
+			inv := map[token.Token]token.Token{token.LSS: token.GEQ, token.GEQ: token.LSS, token.GTR: token.LEQ, token.LEQ: token.GTR, token.EQL: token.NEQ, token.NEQ: token.EQL}
+			op = inv[op]
+		}
+		switch {
+		case op == token.GEQ && k >= need, op == token.GTR && k >= need-1:
+			return true, fmt.Sprintf("guarded by %s %s %d", describeValue(x), op, k)
+		case op == token.NEQ && k == 0 && need == 1 && nonNegative(sv):
+			return true, "guarded by " + describeValue(x) + " != 0 (a count)"
+		case op == token.EQL && k >= need:
+			return true, fmt.Sprintf("guarded by %s == %d", describeValue(x), k)
+		}
+	}
+	// a length that is known not to be zero / to be large enough
+	if c, ok := sv.(*ssa.Call); ok {
+		if bi, isB := c.Call.Value.(*ssa.Builtin); isB && bi.Name() == "len" {
+			for _, g := range guardsOf(b) {
+				if xv, isNil, isG := nilFact(g); isG && !isNil && need == 1 && (sameValue(xv, c.Call.Args[0]) || strip(xv) == strip(c.Call.Args[0])) {
+					return true, "the slice is known to be non-empty"
+				}
+			}
+		}
+	}
+	// the length of a slice that is non-empty by construction, or of a sorted copy of one that
+	// is known to be non-empty (service.Sort hands back a permutation of what it is given: P13-sortcopy)
+	if c, ok := sv.(*ssa.Call); ok && need == 1 {
+		if bi, isB := c.Call.Value.(*ssa.Builtin); isB && bi.Name() == "len" {
+			x := strip(c.Call.Args[0])
+			if nonEmptyByConstruction(x, map[ssa.Value]bool{}) {
+				return true, "the slice is non-empty by construction (a literal with elements, or appended to on every way)"
+			}
+			if sc, isCall := x.(*ssa.Call); isCall {
+				if g := rawStaticCallee(sc); g != nil && g.Pkg != nil && strings.HasSuffix(g.Pkg.Pkg.Path(), "/klog/service") && g.Name() == "Sort" && len(sc.Call.Args) > 0 {
+					src := sc.Call.Args[0]
+					for _, gd := range guardsOf(b) {
+						if xv, isNil, isG := nilFact(gd); isG && !isNil && (sameValue(xv, src) || strip(xv) == strip(src)) {
+							return true, "a sorted copy of a slice that is known to be non-empty"
 						}
 					}
 				}
 			}
 		}
-		r.check(ok, rule, fmt.Sprintf("OpenRange:return#%d", i), p.instrPos(ret), "the open range handed out is the one found by going through the record's entries", "OpenRange() does not find the open range by going through r.entries (it is "+describeValue(v)+"): whatever it relies on instead is not kept up to date when the entry list is replaced (SetEntries), and the open range of a filtered record is no longer found")
 	}
-	// EndOpenRange: the entry replaced is the one at the index at which the search found it
-	n := 0
-	eachVInstr(eor, func(in ssa.Instruction) {
-		st, ok := in.(*ssa.Store)
-		if !ok {
-			return
+	// a counter that starts at `need` or above and only grows
+	if ph, ok := sv.(*ssa.Phi); ok {
+		okAll := true
+		for _, e := range ph.Edges {
+			if k, isK := constInt(e); isK {
+				if k < need {
+					okAll = false
+				}
+				continue
+			}
+			ep := polyOf(e)
+			grows := len(ep.Terms) == 1 && ep.C >= 0
+			for kk, c := range ep.Terms {
+				if c != 1 || strip(ep.leafV[kk]) != ssa.Value(ph) {
+					grows = false
+				}
+			}
+			if !grows {
+				okAll = false
+			}
 		}
-		ia, ok := st.Addr.(*ssa.IndexAddr)
-		if !ok || !isEntriesOfRecv(eor, ia.X) {
-			return
+		if okAll {
+			return true, "a counter that starts at or above the offset and only grows"
 		}
-		n++
-		r.check(indexesOwn(ia.X, ia.Index), rule, fmt.Sprintf("EndOpenRange:replace#%d", n), p.instrPos(st), "the entry replaced is the one at which the search over the record's entries stands", "EndOpenRange replaces the entry at a remembered position ("+describeValue(ia.Index)+") instead of the one its search over r.entries found")
-	})
-	if n == 0 {
-		r.undecided(rule, "EndOpenRange:replace", p.pos(eor.Pos()), "EndOpenRange does not replace an element of r.entries")
 	}
+	return false, "no lower-bound test of " + describeValue(v)
+}
+
+// nonNegative: v is a count by construction — a range index or a length.
+func nonNegative(v ssa.Value) bool {
+	if isRangeIndex(v) {
+		return true
+	}
+	if c, ok := v.(*ssa.Call); ok {
+		if bi, isB := c.Call.Value.(*ssa.Builtin); isB && (bi.Name() == "len" || bi.Name() == "cap") {
+			return true
+		}
+	}
+	return false
+}
+
+// nonEmptyByConstruction: x is a slice literal with elements, the result of an append that adds
+// something, or a merge (phi, variable) of such values only.
+func nonEmptyByConstruction(x ssa.Value, seen map[ssa.Value]bool) bool {
+	x = strip(x)
+	if seen[x] {
+		return true // a cycle through values that are all non-empty otherwise
+	}
+	seen[x] = true
+	switch y := x.(type) {
+	case *ssa.Slice:
+		if a, ok := y.X.(*ssa.Alloc); ok && y.Low == nil && y.High == nil {
+			if pt, ok := a.Type().Underlying().(*types.Pointer); ok {
+				if at, ok := pt.Elem().Underlying().(*types.Array); ok && at.Len() > 0 {
+					return true
+				}
+			}
+		}
+	case *ssa.Call:
+		if bi, ok := y.Call.Value.(*ssa.Builtin); ok && bi.Name() == "append" && len(y.Call.Args) == 2 {
+			if es, ok := sliceLitElems(y.Call.Args[1]); ok && len(es) > 0 {
+				return true
+			}
+			return nonEmptyByConstruction(y.Call.Args[0], seen)
+		}
+	case *ssa.Phi:
+		for _, e := range y.Edges {
+			if !nonEmptyByConstruction(e, seen) {
+				return false
+			}
+		}
+		return len(y.Edges) > 0
+	case *ssa.UnOp:
+		if y.Op == token.MUL {
+			if cell := cellOf(y.X); cell != nil {
+				sts := storesTo(cell)
+				if len(sts) == 0 {
+					return false
+				}
+				for _, st := range sts {
+					if !nonEmptyByConstruction(st.val, seen) {
+						return false
+					}
+				}
+				return true
+			}
+		}
+	}
+	return false
+}
+
+// isPreviousByteOfChunkBoundary: in is the read s[v-1] of a string whose value is compared with
+// '\r' — the look behind a chunk boundary that repair D11 introduced.
+func isPreviousByteOfChunkBoundary(in ssa.Instruction) bool {
+	ix, ok := in.(*ssa.Index)
+	if !ok || !isStringType(ix.X.Type()) {
+		return false
+	}
+	for _, ref := range *ix.Referrers() {
+		if bo, isB := ref.(*ssa.BinOp); isB && (bo.Op == token.EQL || bo.Op == token.NEQ) {
+			if k, isK := constInt(bo.Y); isK && k == '\r' {
+				return true
+			}
+			if k, isK := constInt(bo.X); isK && k == '\r' {
+				return true
+			}
+		}
+	}
+	return false
 }
